@@ -6,6 +6,7 @@ request from a boundary grid incl. inverted/out-of-range ones; os.urandom inside
 pinned to each byte-pattern class so every outcome of _roll_random is taken.
 """
 import itertools
+import signal
 import os
 import shutil
 import tempfile
@@ -143,19 +144,39 @@ def relation(mn, pr, mx):
     return "min<=prefer<=max"
 
 
+class _NoAnswer(BaseException):
+    pass
+
+
+def _on_alarm(signum, frame):
+    raise _NoAnswer()
+
+
 def judge(pack, valid, rejected, vsizes, req, first):
     """One get_modulus call on the real pack.  Returns (result, None) or (result, (key, detail))."""
     mn, pr, mx = req
     RND.arm(first)
     try:
-        g, p = pack.get_modulus(mn, pr, mx)
+        # a call that does not come back (e.g. drawing a random index below 0 candidates forever) is cut off by
+        # an interval timer: selection is a few dictionary look-ups, two CPU-seconds mean "never"
+        signal.signal(signal.SIGVTALRM, _on_alarm)
+        signal.setitimer(signal.ITIMER_VIRTUAL, 2.0)
+        try:
+            g, p = pack.get_modulus(mn, pr, mx)
+        finally:
+            signal.setitimer(signal.ITIMER_VIRTUAL, 0)
+    except _NoAnswer:
+        return None, ("never-returns:ModulusPack.get_modulus:" + relation(mn, pr, mx), {"cpu_seconds": 2.0})
     except SSHException as e:
         if not vsizes:
             return "SSHException", None      # nothing acceptable in the file
         return None, ("raises-although-file-has-usable-groups:ModulusPack.get_modulus:" + relation(mn, pr, mx),
                       {"error": repr(e)})
-    except RuntimeError:
-        raise
+    except RuntimeError as e:
+        if "did not terminate" not in str(e):
+            raise
+        # the deterministic random source ran dry: _roll_random keeps drawing (e.g. an index below 0 candidates)
+        return None, ("never-returns:ModulusPack.get_modulus:" + relation(mn, pr, mx), {"error": str(e)})
     except Exception as e:
         return None, ("exception-%s:ModulusPack.get_modulus:%s" % (type(e).__name__, relation(mn, pr, mx)),
                       {"error": repr(e)})
